@@ -223,6 +223,7 @@ def main(check_mod_name, argv=None):
     ap.add_argument("--replay", default=None)
     args = ap.parse_args(argv)
     seed = int(os.environ.get("VERIF_SEED", "0") or 0)
+    os.environ["VERIF_TIER_ACTIVE"] = args.tier
     t0 = time.time()
     repo_setup()
     mod = importlib.import_module(check_mod_name)
